@@ -199,8 +199,11 @@ func bandHeights(band int) []int {
 
 // memdbProbe: one short linear history (odd heights: Tree.Save starts no background run for
 // pruneHeight 2) on the memdb backend with an explicit pruning run under recover. Prints
-// {"result": "ok" | "panic: ..."}; always exit 0. The registered check runs on LevelDB; this
-// probe only documents why memdb is not exercised.
+// {"result": "ok" | "panic: ..."}; always exit 0. memdb reports deleting an absent key and
+// memBatch.Write returns the last operation's error, so a pruning batch that ends with the second
+// delete of one key panics in dbm.MustWrite (in the store's background goroutine that kills the
+// process). The memdb leg of the check therefore only replays histories whose first commit writes
+// >= 2 keys (no un-prefixed leaf is ever written twice); this probe documents the reason.
 func memdbProbe(env *core.Env, args []string) int {
 	env.Opts["db"] = "mem"
 	env.Opts["ph"] = "2"
@@ -218,11 +221,13 @@ func memdbProbe(env *core.Env, args []string) int {
 				res = "panic: " + fmt.Sprint(r)
 			}
 		}()
+		// a one-leaf tree written twice with the same value: both old versions are stored under the
+		// same un-prefixed leaf key, the pruning batch deletes that key twice
 		steps := []core.Step{
-			{"op": "Commit", "c": float64(0), "h": float64(1), "ws": []any{float64(1), float64(1)}},
-			{"op": "Commit", "c": float64(1), "h": float64(3), "ws": []any{float64(2), float64(0)}},
-			{"op": "Commit", "c": float64(3), "h": float64(5), "ws": []any{float64(1), float64(2)}},
-			{"op": "Commit", "c": float64(5), "h": float64(7), "ws": []any{float64(2), float64(1)}},
+			{"op": "Commit", "c": float64(0), "h": float64(1), "ws": []any{float64(1), float64(0)}},
+			{"op": "Commit", "c": float64(1), "h": float64(3), "ws": []any{float64(1), float64(0)}},
+			{"op": "Commit", "c": float64(3), "h": float64(5), "ws": []any{float64(2), float64(0)}},
+			{"op": "Commit", "c": float64(5), "h": float64(7), "ws": []any{float64(0), float64(1)}},
 		}
 		for _, s := range steps {
 			s["chk"] = []any{}
@@ -231,7 +236,7 @@ func memdbProbe(env *core.Env, args []string) int {
 				return
 			}
 		}
-		mavl.PruningTree(d.db, 7, d.cfg)
+		mavl.PruningTree(d.db, 9, d.cfg)
 	}()
 	fmt.Printf("{\"result\":%q}\n", res)
 	return 0
